@@ -386,6 +386,21 @@ func (n *Node) stop() {
 	n.alive = false
 	n.timer = nil
 	n.timerGen++
+	// baseWAL.OnStop stops the group's ticker but never the head file's
+	// (AutoFile.Close is not called anywhere): in a bubble that ticker would
+	// keep virtual time running for ever after the run, one spinning goroutine
+	// per WAL ever opened in this process
+	var head interface{ Close() error }
+	if n.wal != nil {
+		if g := n.wal.Group(); g != nil {
+			head = g.Head
+		}
+	}
+	defer func() {
+		if head != nil {
+			head.Close()
+		}
+	}()
 	if n.reactor != nil {
 		if n.failed {
 			// the receive routine is gone: reactor.Stop would wait for it forever
